@@ -271,7 +271,7 @@ def run_cases(tag, terms, requires=("Model.Run",), chunk=250, jobs=16, typ="list
     for ci in range(0, len(terms), chunk):
         f = os.path.join(d, "cases_%s_%05d.v" % (re.sub(r"\W", "_", tag), ci // chunk))
         with open(f, "w") as fh:
-            fh.write("From Coq Require Import ZArith List.\nImport ListNotations.\n")
+            fh.write("From Coq Require Import ZArith List PrimFloat.\nImport ListNotations.\n")
             for r in requires:
                 fh.write("From OPF Require Import %s.\n" % r)
             fh.write("Open Scope Z_scope.\nSet Printing Depth 100000000.\nSet Printing Width 1000000.\n")
